@@ -1130,6 +1130,107 @@ fn mode_compose(r: &mut Runner) {
         let _ = await_no_library_thread();
         set_current(None);
     }
+    // the queue's own thread as a caller of the SAME queue: the wrapped sink (or the error handler) emits follow-up
+    // metrics through a clone of the queue it sits behind, more of them than the small bounded queue has room for. They
+    // are answered by queue room like anybody's (the last one is refused), never run inline, and what was accepted is
+    // handed over afterwards, in acceptance order, one at a time.
+    for via_handler in [false, true] {
+        if SPIN_SEEN.load(std::sync::atomic::Ordering::SeqCst) {
+            return;
+        }
+        struct SelfFeeding {
+            inner: GatedSink,
+            slot: Arc<M<Option<QueuingMetricSink>>>,
+            accepted: Arc<M<Vec<String>>>,
+            via_handler: bool,
+        }
+        fn feed(slot: &Arc<M<Option<QueuingMetricSink>>>, accepted: &Arc<M<Vec<String>>>, of: &str) {
+            let q = slot.lock().unwrap_or_else(|e| e.into_inner()).clone();
+            if let Some(q) = q {
+                for k in 0..4 {
+                    let x = format!("{}.follow{}|ok", of.trim_end_matches("|ok").trim_end_matches("|err0"), k);
+                    if q.emit(&x).is_ok() {
+                        accepted.lock().unwrap_or_else(|e| e.into_inner()).push(x);
+                    }
+                }
+            }
+        }
+        impl cadence::MetricSink for SelfFeeding {
+            fn emit(&self, m: &str) -> std::io::Result<usize> {
+                if !self.via_handler && m.contains("feed") && !m.contains("follow") {
+                    feed(&self.slot, &self.accepted, m);
+                }
+                self.inner.emit(m)
+            }
+        }
+        let sh = Shared::new(false);
+        set_current(Some(sh.clone()));
+        let slot: Arc<M<Option<QueuingMetricSink>>> = Arc::new(M::new(None));
+        let accepted: Arc<M<Vec<String>>> = Arc::new(M::new(Vec::new()));
+        let (slot2, acc2) = (std::panic::AssertUnwindSafe(slot.clone()), std::panic::AssertUnwindSafe(accepted.clone()));
+        let q = QueuingMetricSink::builder()
+            .with_capacity(2)
+            .with_error_handler(move |e: std::io::Error| {
+                if via_handler {
+                    let m = e.to_string();
+                    if !m.contains("follow") {
+                        feed(&slot2, &acc2, "feed.from.handler|ok");
+                    }
+                }
+            })
+            .build(SelfFeeding { inner: GatedSink { sh: sh.clone() }, slot: slot.clone(), accepted: accepted.clone(), via_handler });
+        *slot.lock().unwrap() = Some(q.clone());
+        let first = if via_handler { format!("feed{}.n0|err0", r.sid) } else { format!("feed{}.n0|ok", r.sid) };
+        let ok = q.emit(&first).is_ok();
+        if ok {
+            accepted.lock().unwrap().insert(0, first.clone());
+        }
+        // come to rest: everything accepted (the first metric and the follow-ups that found room) handed over
+        let waited = await_log(&sh, |st| {
+            let n = accepted.lock().unwrap_or_else(|e| e.into_inner()).len();
+            n >= 2 && st.log.iter().filter(|e| matches!(e, Ev::Exit { .. })).count() >= n
+        });
+        std::thread::sleep(std::time::Duration::from_millis(5));
+        let acc: Vec<String> = accepted.lock().unwrap().clone();
+        let delivered: Vec<String> = sh.st.lock().unwrap_or_else(|e| e.into_inner()).log.iter().filter_map(|e| if let Ev::Enter { metric, .. } = e { Some(metric.clone()) } else { None }).collect();
+        let label = format!("compose self-feeding queue (capacity 2), follow-ups emitted by {}", if via_handler { "the error handler" } else { "the wrapped sink" });
+        {
+            let mut rep = r.rep();
+            rep.eval();
+            rep.obs("emits_made_on_the_queues_own_thread_into_the_same_queue", 4);
+            rep.distinct(&format!("compose|self|{}", via_handler));
+            let mut inconc = None;
+            let mut report = |props: &[&str], rule: &str, class: &str, detail: String| {
+                for p in props {
+                    if *p == r.prop {
+                        rep.violation(Violation { property: p.to_string(), rule: rule.into(), class: class.into(), detail: format!("[{}] {}", label, detail), replay_args: r.args.to_vec_with(&[]), trace: Json::Null });
+                    }
+                }
+            };
+            if acc.len() > 1 + 3 {
+                // (one taken by the thread + at most capacity 2 ... the thread holds the first: 2 follow-ups fit, a third
+                // may fit if the first was already counted out; 4 of 4 never)
+                report(&["C10"], "R5", "capacity-exceeded", format!("{} follow-up metrics were accepted by a queue of capacity 2 whose thread was busy with the metric that caused them", acc.len() - 1));
+            }
+            match waited {
+                Err(st) if st.is_verdict() => report(&["C08"], "R1", "accepted-never-delivered", format!("accepted {:?}, delivered {:?}: {}", acc, delivered, st.describe())),
+                Err(_) => inconc = Some(format!("{}: watchdog", label)),
+                Ok(()) => {
+                    if delivered != acc {
+                        report(&["C08"], "R2", "out-of-order", format!("accepted in this order {:?}, handed to the wrapped sink in this order {:?}", acc, delivered));
+                    }
+                }
+            }
+            if let Some(i) = inconc {
+                rep.inconclusive(i);
+            }
+        }
+        *slot.lock().unwrap() = None;
+        drop(q);
+        let _ = await_log(&sh, |st| st.log.iter().any(|e| matches!(e, Ev::SinkDrop { .. })));
+        let _ = await_no_library_thread();
+        set_current(None);
+    }
     // a queuing sink wrapped DIRECTLY in a queuing sink (the wrapped sink's type is the library's own): the inner queue
     // is small and its wrapped sink blocked, so it refuses most metrics - to the outer queue that is a failing wrapped
     // sink like any other: its own emit keeps answering Ok (unbounded), and its handler hears of every refusal, once, on
